@@ -290,18 +290,14 @@ func checkC09(r *vt.Run) {
 		runner := func(hist []string) string {
 			c := c09Case{dss, hist}
 			r.Crumb(c)
-			if len(hist) == 4 && hist[0] == "onFull" && hist[1] == "mgrTick" && hist[2] == "promoteH2" {
+			if len(hist) >= 3 && len(hist) <= 4 && hist[0] == "onFull" && hist[1] == "mgrTick" && hist[2] == "promoteH2" {
 				r.Sample(c)
 			}
 			return fmt.Sprint(dss) + "|" + c09Run(r, c)
 		}
 		d1, d2, d3 := depth, depth, depth-1
-		if r.Quick() {
-			d1, d2, d3 = depth-1, depth, depth-1
-			if !dss {
-				d1, d3 = 0, 0
-				d2 = depth - 1
-			}
+		if r.Quick() && !dss {
+			d1, d2, d3 = depth-1, depth-1, depth-2
 		}
 		if only := os.Getenv("VERIF_C09_ONLY"); only != "" {
 			if only != fmt.Sprintf("paused%v", dss) {
@@ -313,10 +309,6 @@ func checkC09(r *vt.Run) {
 		// from the acknowledged full-maintenance state
 		prefix := []string{"onFull", "mgrTick", "candTick"}
 		pausedAlpha := c09Alphabet
-		if r.Quick() {
-			// quick: the events that matter once paused (the full alphabet is used in thorough)
-			pausedAlpha = []string{"mgrTick", "candTick", "off", "delKey", "restartMgr", "zkDown", "zkUp", "promoteH2", "twoMasters", "writableH3", "h1Dies", "adv5"}
-		}
 		vBFS(r, fmt.Sprintf("paused%v|", dss), pausedAlpha, d2, enabled, func(hist []string) string {
 			return runner(append(append([]string(nil), prefix...), hist...))
 		})
